@@ -1438,6 +1438,29 @@ let suite_cache (line : string) : string =
         (String.concat " " (List.map (fun (v, n) -> (match v with Some x -> string_of_n x | None -> "-") ^ "," ^ string_of_int (int_of_nat n)) res))
   | _ -> failwith "bad cache case"
 
+(* ---------- suite: names (file naming and recognition) ---------- *)
+let suite_names (line : string) : string =
+  let show = function
+    | None -> "none"
+    | Some KCurrent -> "C" | Some KLock -> "L"
+    | Some (KManifest x) -> "M" ^ string_of_n x | Some (KWal x) -> "W" ^ string_of_n x
+    | Some (KTable x) -> "T" ^ string_of_n x | Some (KTemp x) -> "X" ^ string_of_n x in
+  match split_nonempty ' ' line with
+  | [ id; t ] ->
+      if t.[0] = 'F' then begin
+        let num = if String.length t > 2 then n_of_string (String.sub t 2 (String.length t - 2)) else N0 in
+        let k = match t.[1] with
+          | 'M' -> KManifest num | 'W' -> KWal num | 'T' -> KTable num | 'X' -> KTemp num
+          | 'C' -> KCurrent | _ -> KLock in
+        let name = file_name k in
+        Printf.sprintf "%s x%s %s" id (hex_of_bytes name) (show (parse_name name))
+      end else begin
+        let raw = parse_bytes (String.sub t 1 (String.length t - 1)) in
+        (* the harness only parses valid UTF-8; ASCII names are generated *)
+        Printf.sprintf "%s %s" id (show (parse_name raw))
+      end
+  | _ -> failwith "bad names case"
+
 let () =
   let suite = Sys.argv.(1) in
   let f =
@@ -1465,6 +1488,7 @@ let () =
     | "wfault" -> suite_wfault
     | "tfile" -> suite_tfile
     | "cache" -> suite_cache
+    | "names" -> suite_names
     | _ -> failwith ("unknown suite " ^ suite)
   in
   try
